@@ -29,6 +29,8 @@ ENGINES = [
      "kind_free_text": "exact rational reduction and characteristic polynomials in TLA+, evaluated on the real EIG routines"},
     {"name": "blocks", "path": "spec/Blocks.tla spec/Rat.tla vh/blockdrv.py", "serves_properties": ["C18"],
      "kind_free_text": "documented block transfer functions in TLA+ over exact rationals, verified on extracted realisations"},
+    {"name": "acnetwork", "path": "spec/ACNetwork.tla spec/Scen_ACNetwork.tla spec/NewtonPF.tla spec/Trace_PF.tla vh/acdrv.py vh/pfdrv.py vh/aclattice.py",
+     "serves_properties": ["C01", "C03"], "kind_free_text": "exact power balance and Jacobian in TLA+ on a lattice; Newton loop model"},
     {"name": "connectivity", "path": "spec/Connectivity.tla spec/Trace_Connectivity.tla spec/Scen_Connectivity.tla vh/conndrv.py vh/netbuild.py",
      "serves_properties": ["C12"], "kind_free_text": "graph definitions in TLA+ evaluated by TLC on logged graphs of real Systems; ConnMan model-checked"},
     {"name": "lifecycle", "path": "spec/Lifecycle.tla spec/Trace_Lifecycle.tla spec/Scen_Lifecycle.tla vh/lifecycle.py vh/infeasible.py",
@@ -197,6 +199,33 @@ CHECKS["C18"] = dict(
          "documented steady state, and that limited variants reduce to the unlimited block inside their limits.",
     note=TRUSTED.replace("vh/tdsdrv.py: ranks of floats, booleans computed on floats", "vh/blockdrv.py: exact Fraction evaluation of equation strings, exact linear solve (certificate re-checked by TLC)")
          + "Nonlinear blocks are not covered. That generated code equals the equation strings is C02's clause.")
+
+CHECKS["C01"] = dict(
+    engine="acnetwork", design_ref="DESIGN.md 4 (C01), 2.4",
+    technique="complex power balance over exact Gaussian rationals in TLA+ (ACNetwork) enumerated by TLC and evaluated on the library's "
+              "assembled residual; NewtonPF model-checked; encodings of generated networks and stock cases x Newton variant x sparse "
+              "library validated by TLC",
+    text="ACNetwork.tla writes the two-bus power balance from the physical data (pi model, separate from/to shunts, complex tap, "
+         "status, device bases) exactly; TLC emits exact residuals on the lattice and the library's assembled residual must agree "
+         "(the class is polynomial/first-harmonic/multilinear, so the grid decides it); the Newton loop's exits are model-checked; "
+         "one physical network in shuffled orders, int/str idx and three device bases must converge from a flat start to the same "
+         "voltages with every Newton variant and sparse library; on stock cases convergence implies a recomputed residual below "
+         "tol and set-points met.",
+    note=TRUSTED.replace("vh/tdsdrv.py: ranks of floats, booleans computed on floats", "vh/acdrv.py, vh/pfdrv.py: closeness at 1e-6 relative (1e-8 impedance regularisation)")
+         + "'Converges for every well-posed network' is sampled, not decided. PSS/E and MATPOWER inputs are solved (stock) but their "
+           "parsing fidelity is C13's.")
+CHECKS["C03"] = dict(
+    engine="acnetwork", design_ref="DESIGN.md 4 (C03), 2.4",
+    technique="Jacobian defined in TLA+ as exact lattice differences of the ACNetwork residual, enumerated by TLC and compared with "
+              "System.j_update at the right addresses; assembled Jacobians of stock cases against column-wise finite differences; "
+              "pattern stability; records validated by TLC",
+    text="The exact Jacobian entries of the lattice come from the residual itself (central difference exact for quadratics, "
+         "quarter-turn difference exact for first harmonics), so rows/columns/values of dae.gy are checked without a second "
+         "hand derivation; for stock cases, in both phases and with ipadd 1/0, every column of [fx fy; gx gy] is compared with "
+         "central finite differences of the assembled residual and the sparsity pattern must not change between updates.",
+    note=TRUSTED.replace("vh/tdsdrv.py: ranks of floats, booleans computed on floats", "vh/acdrv.py, vh/pfdrv.jac_stock: numeric predicates (1e-6 lattice, 1e-4 finite differences)")
+         + "Symbolic derivative equality per model is not decided; the finite-difference clause is numeric. Known findings: "
+           "equations that depend on VarServices have no Jacobian entries for that dependence.")
 
 NOT_APPLICABLE = [
     {"property_id": "C07", "reason": "numeric accuracy / convergence order against closed-form and matrix-exponential references: no "
